@@ -56,10 +56,35 @@ def check(run, P):
         return
     env, where_ = {}, {}
     errors = {}
+    # named intermediates (_FLOAT_INFO = np.finfo(float); X = np.float64(_FLOAT_INFO.eps)) are substituted: module-level names assigned exactly once
+    import copy
+    counts = {}
+    for st in mod.tree.body:
+        if isinstance(st, ast.Assign):
+            for t in st.targets:
+                if isinstance(t, ast.Name):
+                    counts[t.id] = counts.get(t.id, 0) + 1
+    single = {st.targets[0].id: st.value for st in mod.tree.body if isinstance(st, ast.Assign) and len(st.targets) == 1 and isinstance(st.targets[0], ast.Name) and counts.get(st.targets[0].id) == 1}
+
+    class _Inl(ast.NodeTransformer):
+        def __init__(self, skip):
+            self.skip = skip
+            self.depth = 0
+
+        def visit_Name(self, n):
+            if isinstance(n.ctx, ast.Load) and n.id in single and n.id not in self.skip and n.id not in EXPECT and n.id not in ("INT_DTYPE",) and self.depth < 6:
+                self.depth += 1
+                r = self.visit(copy.deepcopy(single[n.id]))
+                self.depth -= 1
+                return r
+            return n
+
+    def inl(name, e):
+        return ast.fix_missing_locations(_Inl({name}).visit(copy.deepcopy(e)))
     for st in mod.tree.body:
         if isinstance(st, ast.Assign) and len(st.targets) == 1 and isinstance(st.targets[0], ast.Name):
             try:
-                env[st.targets[0].id] = _fold(st.value, env)
+                env[st.targets[0].id] = _fold(inl(st.targets[0].id, st.value), env)
             except _NotConst as ex:
                 errors[st.targets[0].id] = str(ex)
                 env.pop(st.targets[0].id, None)
@@ -77,7 +102,7 @@ def check(run, P):
         else:
             run.incomplete("F-CONST/tolerances", c, REL, f"{name} is not defined at module level")
     # the fill value is the smallest value of the index dtype (outside every index range); the index dtype is numpy's own indexing type
-    defs = {st.targets[0].id: st.value for st in mod.tree.body if isinstance(st, ast.Assign) and len(st.targets) == 1 and isinstance(st.targets[0], ast.Name)}
+    defs = {st.targets[0].id: inl(st.targets[0].id, st.value) for st in mod.tree.body if isinstance(st, ast.Assign) and len(st.targets) == 1 and isinstance(st.targets[0], ast.Name)}
     for name, texts in (("INT_DTYPE", ("np.intp", "np.int64")), ("INT_FILL_VALUE", ("np.iinfo(INT_DTYPE).min", "np.iinfo(np.intp).min", "np.iinfo(np.int64).min"))):
         c = f"{REL}:{name}"
         if name not in defs:
